@@ -103,6 +103,11 @@ CLAIMS = {
             "Claims only: the decoders of both formats reach no explicit panic construct; the type/direction code tables are "
             "inverse, four-bit and total; the compact format's tag ranges are ordered, 9 wide, disjoint and contiguous.  Order "
             "preservation, prefix contiguity and value round-trip are NOT decided.", "§4 C16"),
+    "C10": ("ORDER/MUSTPASS/SIBLINGS over builder put/del/seal, ORIGIN of index keys and final-block fields, maximum encoded sizes computed from field tables of the expanded derives vs. evaluated size constants",
+            "Decides builder gates and format tables: length/size/sort-order gates precede every mutation and agree between put "
+            "and del; accepted entries reach block, bloom filter, setsum and key-range metadata; seal writes data < index < "
+            "filter < final block < flush < sync; size constants bound the encoded sizes of their messages and the trailer is "
+            "the last packed fixed64.  Does not decide enumeration/seek/lookup correctness of the cursors.", "§4 C10"),
 }
 
 NA_DEFAULT = "check not built yet (DESIGN.md §8 build order); will be claimed once its rule set is armed"
